@@ -712,7 +712,9 @@ func runC12(c *fw.Case) {
 		return m
 	})
 	fails := 0
-	for _, s := range scheds {
+	// one set of option values serves every read of the document (a caller configures once and reads many files)
+	cfg := d.config()
+	for si, s := range scheds {
 		c.Eval(1)
 		c.Count("schedule:"+s.name, 1)
 		rd := &fragReader{data: d.bytes, cuts: s.cuts, eofWith: s.eofWith, limit: 10*len(d.bytes) + 1000}
@@ -724,7 +726,7 @@ func runC12(c *fw.Case) {
 			c.Count("schedules_splitting_inside_special_quoted_field", 1)
 		}
 		keySuffix := scheduleKind(s)
-		pv, stack := fw.Guard(func() { res = qframe.ReadCSV(rd, d.config()...) })
+		pv, stack := fw.Guard(func() { res = qframe.ReadCSV(rd, cfg...) })
 		msg, key := "", ""
 		switch {
 		case pv != nil:
@@ -753,6 +755,39 @@ func runC12(c *fw.Case) {
 			}
 			if df := model.Diff(wantPos, got); df != "" {
 				key, msg = "cells:"+keySuffix, df
+			}
+			// EnumValues honoured: the declared order is the column's order (observed by sorting on the column)
+			if key == "" && len(d.enumVals) > 0 && (si == 1 || si == len(scheds)-1) {
+				names := res.ColumnNames()
+				for ci, vals := range d.enumVals {
+					if ci >= len(names) || len(vals) < 2 {
+						continue
+					}
+					rank := map[string]int{}
+					for i, v := range vals {
+						rank[v] = i
+					}
+					sorted := res.Sort(qframe.Order{Column: names[ci]})
+					v, verr := sorted.EnumView(names[ci])
+					if sorted.Err != nil || verr != nil {
+						key, msg = "enum-order", fmt.Sprintf("column %q declared as enum over %q cannot be sorted/viewed as enum: %v %v", names[ci], vals, sorted.Err, verr)
+						break
+					}
+					prev := -1
+					for r := 0; r < v.Len(); r++ {
+						p := v.ItemAt(r)
+						if p == nil {
+							continue
+						}
+						rk, ok := rank[*p]
+						if !ok || rk < prev {
+							key, msg = "enum-order", fmt.Sprintf("column %q declared as enum over %q: sorting on it gives %q at position %d after a value of rank %d (declared order not in force)", names[ci], vals, *p, r, prev)
+							break
+						}
+						prev = rk
+					}
+					c.Count("enum_order_checks", 1)
+				}
 			}
 		}
 		if key != "" {
